@@ -75,8 +75,8 @@ def run(ctx):
     cases = []
     for u in UNITS:
         for uw in G.LEX["unit"][u]:
-            for n in range(0, 121):
-                if ctx.quick and n > 32 and n % 10 not in (0, 9):
+            for n in list(range(0, 121)) + [365, 999, 1000, 1440, 9999, 10000, 10080, 43200, 99999, 525600, 1000000]:
+                if ctx.quick and 32 < n <= 120 and n % 10 not in (0, 9):
                     continue
                 cases.append({"kind": "digit", "n": n, "u": u, "text": "%d %s" % (n, uw)})
             for ns, words in G.LEX["number_word"].items():
@@ -97,7 +97,7 @@ def run(ctx):
     ts0 = (2018, 3, 7, 12, 43)
     cases = []
     for u in UNITS:
-        for n in ([0, 1, 2, 10, 21, 31, 60, 120] if ctx.quick else range(0, 121)):
+        for n in ([0, 1, 2, 10, 21, 31, 60, 120, 1440, 10080, 43200, 525600] if ctx.quick else list(range(0, 121)) + [365, 1000, 1440, 9999, 10000, 10080, 43200, 99999, 525600]):
             for lab, text, D in G.duration_forms(n, u, words=False):
                 cases.append({"text": text, "n": n, "u": u, "ts": ts0, "label": lab, "form": text.split()[-1] if " " in text else lab})
         for ns in G.LEX["number_word"]:
@@ -114,7 +114,9 @@ def run(ctx):
     for (y, m, d) in starts:
         D = G.day("date", d, m, y)
         for u in UNITS:
-            for n in ([1, 2, 12, 31] if ctx.quick else [0, 1, 2, 3, 7, 12, 24, 28, 30, 31, 36, 60]):
+            for n in ([1, 2, 12, 31, 10080] if ctx.quick else [0, 1, 2, 3, 7, 12, 24, 28, 30, 31, 36, 60, 1440, 10080, 43200]):
+                if n > 1000 and u not in ("minutes", "hours"):
+                    continue
                 uw = {"minutes": "minutes", "hours": "hours", "days": "days", "nights": "nights", "weeks": "weeks", "months": "months"}[u]
                 for fw in ("for", "für"):
                     cases.append({"text": "%d.%d.%d %s %d %s" % (d, m, y, fw, n, uw), "D": D, "n": n, "u": u, "ts": ts0,
